@@ -182,6 +182,11 @@ func (tw *TimingWheel) drainAll(fn func(key, value any)) {
 	}
 }
 
+// getOffset returns the number of ticks, minus one, until the slot at pos is scanned next.
+func (tw *TimingWheel) getOffset(pos int) int {
+	return (pos + tw.numSlots - tw.tickedPos - 1) % tw.numSlots
+}
+
 func (tw *TimingWheel) getPositionAndCircle(d time.Duration) (pos, circle int) {
 	steps := int(d / tw.interval)
 	pos = (tw.tickedPos + steps) % tw.numSlots
@@ -211,13 +216,17 @@ func (tw *TimingWheel) moveTask(task baseEntry) {
 	}
 
 	pos, circle := tw.getPositionAndCircle(task.delay)
-	if pos >= timer.pos {
+	// compare the slots by their distance from the current position, not by their
+	// absolute indices, otherwise a slot that wrapped around fires one circle off.
+	oldOffset := tw.getOffset(timer.pos)
+	newOffset := tw.getOffset(pos)
+	if newOffset >= oldOffset {
 		timer.item.circle = circle
-		timer.item.diff = pos - timer.pos
+		timer.item.diff = newOffset - oldOffset
 	} else if circle > 0 {
 		circle--
 		timer.item.circle = circle
-		timer.item.diff = tw.numSlots + pos - timer.pos
+		timer.item.diff = tw.numSlots + newOffset - oldOffset
 	} else {
 		timer.item.removed = true
 		newItem := &timingEntry{
